@@ -699,7 +699,8 @@ pub fn run_c13(tier: &str, seed: u64) -> i32 {
         budget_s: if quick { 900 } else { 3600 },
     };
     let only = std::env::var("VERIF_C13_ONLY").ok();
-    run_cases(plan, tier, seed, move |idx, r, l| {
+    let thorough = !quick;
+    let mut rep = cases_report(plan, tier, seed, move |idx, r, l| {
         if let Some(o) = &only {
             match o.as_str() { "threaded" => threaded_scenario(idx, r, l), "tokio" => tokio_scenario(idx, r, l), "ws" => ws_scenario(idx, r, l), _ => large_publish_scenario(idx, r, l) }
             return;
@@ -710,5 +711,10 @@ pub fn run_c13(tier: &str, seed: u64) -> i32 {
             6 => { if idx % 64 == 6 { large_publish_scenario(idx, r, l) } else { ws_scenario(idx, r, l) } }
             _ => ws_scenario(idx, r, l),
         }
-    })
+    });
+    if thorough || std::env::var("VERIF_MIRI").is_ok() {
+        // schedule exploration of the blocking API with the interpreter's deadlock / data-race detector
+        crate::miri::add_miri(&mut rep, &[("close-race", 48), ("stop-cycle", 24)]);
+    }
+    rep.finish()
 }
